@@ -6,6 +6,9 @@ type C20Case struct {
 	Ops          int    `json:"ops"`  // operations per goroutine
 	ShutdownRace bool   `json:"shutdownRace"`
 	Seed         int64  `json:"seed"`
+	// AutoMTLS (client kinds): the client asks for AutoMTLS and the plugin logs to its stderr from the moment
+	// it starts (start-up logging around the handshake)
+	AutoMTLS bool `json:"autoMTLS,omitempty"`
 }
 
 type C20Obs struct {
